@@ -22,6 +22,8 @@ impl World {
         std::fs::write(dir.join("defs_ok.txt"), "CREATE TABLE t(line = '(.*)', line[1] => x TEXT);\n").unwrap();
         std::fs::write(dir.join("defs_two.txt"), "CREATE TABLE t(line = '(.*)', line[1] => x TEXT);\nCREATE TABLE u(l2 = '(.)', l2[1] => y TEXT);\n").unwrap();
         std::fs::write(dir.join("defs_bad.txt"), "CREATE TABLE t(line = ").unwrap();
+        std::fs::write(dir.join("defs_session.txt"), "CREATE TABLE t(line = '(.*)', line[1] => x TEXT);\nCREATE TABLE j(l4 = '^(..)=(.)$', l4[1] => x TEXT, l4[2] => y TEXT);\n").unwrap();
+        std::fs::write(dir.join("fj.txt"), "a1=p\na1=q\nb1=r\n").unwrap();
         World { dir }
     }
     fn path(&self, id: &str) -> String { self.dir.join(format!("{}.txt", id)).to_str().unwrap().to_string() }
@@ -189,4 +191,78 @@ pub fn trace_sigint(seed: u64, n: usize) -> Vec<J> {
     }
     cleanup_scratch();
     ev
+}
+
+// ---------------------------------------------------------------------------------------------
+// Session.tla: several statements / commands piped into one process (the interactive loop of main.rs)
+
+fn session_line(c: &str, w: &World) -> String {
+    if c == "join" { return format!("SELECT x, y FROM t INNER JOIN j::'{}' ON t.x = j.x;", w.path("fj")); }
+    match c {
+        "all" => "SELECT x FROM t;", "count" => "SELECT COUNT(*) AS n FROM t;", "group" => "SELECT x, COUNT(*) AS n FROM t GROUP BY x;",
+        "limit1" => "SELECT x FROM t LIMIT 1;", "selw" => "SELECT z FROM w;", "dist" => "SELECT DISTINCT z FROM w;",
+        "rea" => "SELECT x FROM t WHERE regex_matches(x, '^a');", "reb" => "SELECT x FROM t WHERE regex_matches(x, '^b');",
+        "createw" => "CREATE TABLE w(l3 = '(.)', l3[1] => z TEXT);", "bad" => "SELEC;", "exit" => "exit", "dt" => "\\d t", "dw" => "\\d w",
+        o => panic!("session command {}", o)
+    }.to_string()
+}
+
+fn session_item_matches(item: &J, line: &str, format: &str) -> bool {
+    let names: Vec<String> = item["cols"].as_array().unwrap().iter().map(name_of).collect();
+    match item["k"].as_str().unwrap() {
+        "blank" => line.is_empty(),
+        "hdr" => line == names.join(";"),
+        "msg" => match item["m"].as_str().unwrap() {
+            "parseerr" => line.starts_with("Failed parsing input:"),
+            "execerr" => line.starts_with("Execution error:"),
+            "nodef" => line.ends_with("is not a defined table."),
+            "dt1" => line.contains("Column") && line.contains("Type") && line.contains("Nullable"),
+            "dt2" => line.starts_with('-'),
+            "dt3" => line.trim_start().starts_with("x ") && line.contains("text"),
+            "dw3" => line.trim_start().starts_with("z ") && line.contains("text"),
+            _ => false
+        },
+        "rec" => {
+            let row = item["row"].as_array().unwrap();
+            match format {
+                "json" => match serde_json::from_str::<J>(line) {
+                    Ok(J::Object(m)) => m.len() == row.len() && m.iter().zip(names.iter().zip(row.iter())).all(|((k, o), (n, v))| k == n && expected_json(v).map(|e| json_eq(o, &e)).unwrap_or(false)),
+                    _ => false
+                },
+                "csv" => line == row.iter().map(|v| concretise(v).to_string()).collect::<Vec<_>>().join(";"),
+                _ => line == names.iter().zip(row.iter()).map(|(n, v)| format!("{}: {}", n, concretise(v))).collect::<Vec<_>>().join(", ")
+            }
+        }
+        _ => false
+    }
+}
+
+pub fn replay_session(cases: &[J]) -> J {
+    let w = World::new();
+    let mut rep = Report::new("session");
+    for case in cases {
+        tick(case);
+        let format = case["format"].as_str().unwrap();
+        let mut input = String::new();
+        for c in case["session"].as_array().unwrap() { input.push_str(&session_line(c.as_str().unwrap(), &w)); input.push('\n'); }
+        let mut child = Command::new(cli()).env("TZ", "UTC").env_remove("RUST_BACKTRACE")
+            .args(["-d", w.dir.join("defs_session.txt").to_str().unwrap(), &w.path("fa"), &w.path("fb"), "--format", format])
+            .stdin(Stdio::piped()).stdout(Stdio::piped()).stderr(Stdio::piped()).spawn().unwrap();
+        { let mut si = child.stdin.take().unwrap(); let _ = si.write_all(input.as_bytes()); }
+        let o = child.wait_with_output().unwrap();
+        let stdout = String::from_utf8_lossy(&o.stdout).to_string();
+        let lines: Vec<&str> = stdout.split('\n').collect();
+        let lines = if lines.last() == Some(&"") { &lines[..lines.len() - 1] } else { &lines[..] };
+        let exp = case["out"].as_array().unwrap();
+        let crashed = o.status.code() != Some(0) || String::from_utf8_lossy(&o.stderr).contains("panicked");
+        let same = lines.len() == exp.len() && exp.iter().zip(lines.iter()).all(|(e, l)| session_item_matches(e, l, format));
+        if same && !crashed {
+            rep.ok(case, format!("{}|{}", case["session"], format), exp.iter().any(|e| e["k"] == "rec"));
+        } else {
+            rep.mismatch(case, json!({"stdout": exp}), json!({"input": input, "stdout": lines, "exit": o.status.code(), "stderr": String::from_utf8_lossy(&o.stderr).chars().take(300).collect::<String>()}),
+                         "the interactive loop of the sqlgrep process differs from Session.tla");
+        }
+    }
+    cleanup_scratch();
+    rep.finish()
 }
